@@ -409,13 +409,14 @@ class Ctx:
     """Evaluation context: variable lookup + fragility tracking + switches used to emulate
     hypothesised defects (to *classify* an observed mismatch, never to excuse it)."""
 
-    def __init__(self, lookup, int_div=False, c_fmod=False, frag_tol=1e-9):
+    def __init__(self, lookup, int_div=False, c_fmod=False, frag_tol=1e-9, strict_rel=False):
         self.lookup = lookup
         self.fragile = False
         self.maxabs = 0.0  # largest operand of an addition / subtraction / Mod / trigonometric function (absolute-error scale)
         self.flags = set()  # facts about the evaluation an oracle may want to know ("mod-negative-operand")
         self.int_div = int_div  # C semantics for integer-literal quotients
         self.c_fmod = c_fmod  # C fmod sign
+        self.strict_rel = strict_rel  # Ge / Le read as Gt / Lt (what sympy.simplify makes of a non-strict relational with a float bound)
         self.frag_tol = frag_tol
 
     def near(self, a, b, simple):
@@ -596,6 +597,8 @@ def _call(node, ctx):
         b = _num(ev(args[1], ctx))
         ctx.near(a, b, _simple(args[0]) and _simple(args[1]))
         a, b = _val(a), _val(b)
+        if ctx.strict_rel:
+            return {"Lt": a < b, "Gt": a > b, "Le": a < b, "Ge": a > b, "Eq": a == b}[name]
         return {"Lt": a < b, "Gt": a > b, "Le": a <= b, "Ge": a >= b, "Eq": a == b}[name]
     if name == "Not":
         return not _truth(ev(args[0], ctx))
